@@ -333,7 +333,7 @@ def handle (op : String) (j : Json) : Option Json :=
   | "c02.check" => some (c02Check j)
   | "c02.diag" => some (c02Diag j)
   | "c20.balances" => some (c20Balances j)
-  | "c20.hover" => some (c20Hover j)
+  | "c20.hovertext" => some (c20Hover j)
   | _ => none
 
 end HL.Driver.C02
